@@ -82,7 +82,9 @@ claimed = {
         "with exactly the same item list exists (no duplicate states, no two different item sets identified); InsertItemClosure appends with Index == position; "
         "getItemCloure returns (r,0) for exactly the rules r whose left-hand side is the symbol after the dot (both inclusions); ComputeIClosure returns the LEAST closed "
         "superset of the items it is given (closed: every needed (r,0) is present; justified: every added item is needed by an item of the set; the given items are kept; "
-        "representation invariant kept) and leaves it sorted by (rule, dot), which is what makes the position-wise comparison of CheckIsExist a set comparison.",
+        "representation invariant kept) and leaves it sorted by (rule, dot), which is what makes the position-wise comparison of CheckIsExist a set comparison. "
+        "Also under this property: drawing a state (StateGraphNode, -g) lists all its items and leaves the automaton's item lists alone; and the lexer's action scanner ends an action exactly where the "
+        "brace depth of the text read so far returns to 0 (every rune counted), so no rule is swallowed into an action.",
    note=TB + "Assumed: sort.SliceStable yields a permutation ordered by its less function. Local steps of the worklist are proved too: state 0 is the closure of the start item and the only state when the worklist starts (BuildLALR1); in "
         "ComputeGotoItemNoneRec an item with X after the dot contributes exactly its advanced item (same rule, dot+1) to the target on X, a new goto entry is created on exactly that X, "
         "and every pending target is resolved to the index of a state with exactly its item list (an existing one, else itself appended). NOT proved as a whole: the worklist orchestration ComputeGotoItemNoneRec / ComputeAllGoto "
@@ -196,7 +198,7 @@ claimed = {
  "C19": dict(
    text="Typestate/effect contract on the real TemplateGenFromString, TsGenFromString and WriteFile: after the call of os.Create only calls from an "
         "explicit input-infallible list may follow (fmt.Errorf, WriteFile / WriteString / Close); WriteFile itself is io_only; every function of the "
-        "repository is treated as fallible on the input. The obligations are generated from the function bodies in /repo on every run and decided by "
+        "repository is treated as fallible on the input; nothing reachable from the two generator entry points or from the command-line front end calls recover(), so a failure in front of os.Create really ends the run (effect no_recover). The obligations are generated from the function bodies in /repo on every run and decided by "
         "govc's effect analysis (call order over the AST, no bound). Completeness of the output: both template constants end with {{.CodeLast}} and "
         "the TypeScript builder's last WriteString writes b.CodeLast. Every action of the two template constants reads a FIELD of TemplateBuilder - no method of that name exists, "
         "no call or pipeline - so nothing input-dependent is evaluated while the file is open. The command-line front end (genCommonFunc, cmdGenerate) is under an io_only "
@@ -212,7 +214,7 @@ claimed = {
         "no blank entry claimed by its row) is proved for every rectangular matrix with quantified loop invariants over all 13 loops, "
         "UnPackTable equals the lookup spec, SplitActionAndGotoTable is the column split/transposition into NEW arrays (never views of the dense table, which the "
         "unpacked and TypeScript back ends still emit), the generated Action() of the packed renderings returns the dense entry, and TrySplitTable's postcondition "
-        "states, for every (state, symbol), lookup(packed arrays, ActionDef, GoToDef) == dense table entry - the statement of C05 itself. "
+        "states, for every (state, symbol), lookup(packed arrays, ActionDef, GoToDef) == dense table entry - the statement of C05 itself; after TrySplitTable ComputeLALR only prints an error text, so the arrays are final. "
         "All index expressions are proved in range.",
    note=TB + "Assumed contract: sort.SliceStable yields a permutation. TrySplitTable requires a table without zero entries and the symbol layout "
         "len(row)==len(VtSet)+len(VnSet): GenTable proves len(row)==len(Symbols) and no zero cell; Grammar.ResolveSymbols is proved to make VtSet exactly the set of terminals of the symbol list (every declared token, used in a rule or not); the step from the two sets to the cardinalities is by reading (symbols are distinct pointers), not by proof. The generated (*StateSym).Action has an extra "
